@@ -347,6 +347,10 @@ def enumerate_cases(tier, seed):
         d = dict(d)
         d["hydrogens"] = True
         cases.append(d)
+    for d in s3.bare_cases(["AMBER"], ["default", "nodebump_noopt", "clean"]):
+        d = dict(d)
+        d["shift"] = [-150.0, 1200.0, -300.0]
+        cases.append(d)
     cases += s3.clash_cases("AMBER")
     cases += s3.omit_cases("AMBER")
     cases += s3.water_cases("AMBER", dists=(2.8,))
@@ -367,6 +371,7 @@ def enumerate_cases(tier, seed):
     cases += s3.tetra_partner_cases("AMBER")
     cases += s3.torsion_cases("AMBER")
     cases += s3.alias_cases()
+    cases += s3.altloc_cases("AMBER")
     for seq, naming in ((["DA", "DT", "DG", "DC"], "legacy"),
                         (["RA", "RU", "RG", "RC"], "modern"),
                         (["DT", "DC"], "star"), (["RG", "RU"], "short")):
